@@ -1,10 +1,468 @@
+/-
+  Text layer of Go's `encoding/json` (the v1 implementation: scanner.go, decode.go `unquote`, encode.go
+  `appendString`, indent.go `appendCompact`, fold.go), modelled on byte lists.
+  Checked against the toolchain installed in the sandbox (`go version` = go1.23.5; these files are
+  unchanged in later releases as long as GOEXPERIMENT=jsonv2 is off).
+
+  Core Lean only.  Every definition is total and uses structural recursion on the input byte list
+  (no `partial`, no fuel, no well-founded recursion, no axioms beyond propext/Quot.sound), so `decide`
+  evaluates closed instances on explicit byte lists and the compiled code runs in linear time with
+  constant stack (all loops are tail-recursive with reversed accumulators; nesting is tracked with an
+  explicit stack/counter, never with recursion).
+
+  Contents
+  * `Scanner` / `step` / `Scanner.eof`: a transliteration of scanner.go (the byte-at-a-time state
+    machine with its parse-state stack and the 10000 nesting limit).
+  * `valid`        = json.Valid
+  * `compact`      = what json.Marshal emits for a json.RawMessage / Marshaler output
+                     (`appendCompact` with escape = true)
+  * `trim`         = the exact text of the single value of a document
+  * `parse1`       = one-level view with raw children
+  * `decodeString` = scanner check + `unquote`
+  * `encodeString` = `appendString(…, escapeHTML = true)`
+  * `anyDecodable` = does Unmarshal into `any` succeed
+  * `foldEq`       = key/field matching (`foldName(key) == foldName(name)`, ASCII `name`)
+  * `stripSpaces`  = strings.Join(strings.Fields(s), "")
+  * `trimSpace`    = bytes.TrimSpace
+  * `numOkRef`     = exact-arithmetic reference for "strconv.ParseFloat(raw, 64) returns no error" on a
+                     JSON number literal (used by the validator as the `numOk` argument of `anyDecodable`).
+
+  Validated against the real Go implementation by /verif/harness/cmd/jsoncheck (see its README.md).
+-/
 import GoLucene.Model.Basic
-/- TEMPORARY STUB — replaced by the exact model of encoding/json's text layer (see harness/cmd/jsoncheck). -/
-namespace GoLucene.Json
 
-def valid (_data : Bytes) : Bool := false
-def trim (data : Bytes) : Bytes := data
+namespace GoLucene
+namespace Json
 
+/-! ## Byte classes -/
+
+/-- JSON insignificant whitespace: scanner.go `isSpace`. -/
+@[inline] def isJsonWs (c : UInt8) : Bool := c == 0x20 || c == 0x09 || c == 0x0D || c == 0x0A
+@[inline] def isDigit (c : UInt8) : Bool := 0x30 ≤ c && c ≤ 0x39
+@[inline] def isDigit19 (c : UInt8) : Bool := 0x31 ≤ c && c ≤ 0x39
+@[inline] def isHexDigit (c : UInt8) : Bool :=
+  (0x30 ≤ c && c ≤ 0x39) || (0x61 ≤ c && c ≤ 0x66) || (0x41 ≤ c && c ≤ 0x46)
+
+/-- value of a hex digit (0 for non-hex bytes; callers check `isHexDigit`). -/
+def hexDigitVal (c : UInt8) : Nat :=
+  if 0x30 ≤ c && c ≤ 0x39 then c.toNat - 0x30
+  else if 0x61 ≤ c && c ≤ 0x66 then c.toNat - 0x61 + 10
+  else if 0x41 ≤ c && c ≤ 0x46 then c.toNat - 0x41 + 10
+  else 0
+
+/-- lower-case hex digit of a nibble, as in Go's `const hex = "0123456789abcdef"`. -/
+def hexLower (n : Nat) : UInt8 :=
+  if n < 10 then UInt8.ofNat (0x30 + n) else UInt8.ofNat (0x61 + (n - 10))
+
+/-! ## UTF-8 (unicode/utf8) -/
+
+def runeError : Nat := 0xFFFD
+
+@[inline] def isContByte (c : UInt8) : Bool := c &&& 0xC0 == 0x80
+
+/-- `utf8.DecodeRune`: `(rune, size)`.  Invalid or short input gives `(0xFFFD, 1)` (`(0xFFFD, 0)` on
+    empty input).  A well-formed encoding of U+FFFD gives `(0xFFFD, 3)`. -/
+def decodeRune : Bytes → Nat × Nat
+  | [] => (runeError, 0)
+  | c0 :: rest =>
+    if c0 < 0x80 then (c0.toNat, 1)
+    else if c0 < 0xC2 then (runeError, 1)
+    else if c0 < 0xE0 then
+      match rest with
+      | c1 :: _ =>
+        if isContByte c1 then ((c0.toNat % 32) * 64 + c1.toNat % 64, 2) else (runeError, 1)
+      | [] => (runeError, 1)
+    else if c0 < 0xF0 then
+      let lo : UInt8 := if c0 == 0xE0 then 0xA0 else 0x80
+      let hi : UInt8 := if c0 == 0xED then 0x9F else 0xBF
+      match rest with
+      | c1 :: c2 :: _ =>
+        if lo ≤ c1 && c1 ≤ hi && isContByte c2 then
+          (((c0.toNat % 16) * 64 + c1.toNat % 64) * 64 + c2.toNat % 64, 3)
+        else (runeError, 1)
+      | _ => (runeError, 1)
+    else if c0 < 0xF5 then
+      let lo : UInt8 := if c0 == 0xF0 then 0x90 else 0x80
+      let hi : UInt8 := if c0 == 0xF4 then 0x8F else 0xBF
+      match rest with
+      | c1 :: c2 :: c3 :: _ =>
+        if lo ≤ c1 && c1 ≤ hi && isContByte c2 && isContByte c3 then
+          ((((c0.toNat % 8) * 64 + c1.toNat % 64) * 64 + c2.toNat % 64) * 64 + c3.toNat % 64, 4)
+        else (runeError, 1)
+      | _ => (runeError, 1)
+    else (runeError, 1)
+
+/-- `utf8.AppendRune`: surrogates and out-of-range values are encoded as U+FFFD. -/
+def utf8Encode (r : Nat) : Bytes :=
+  if r < 0x80 then [UInt8.ofNat r]
+  else if r < 0x800 then [UInt8.ofNat (0xC0 + r / 64), UInt8.ofNat (0x80 + r % 64)]
+  else if r > 0x10FFFF || (0xD800 ≤ r && r ≤ 0xDFFF) then [0xEF, 0xBF, 0xBD]
+  else if r < 0x10000 then
+    [UInt8.ofNat (0xE0 + r / 4096), UInt8.ofNat (0x80 + r / 64 % 64), UInt8.ofNat (0x80 + r % 64)]
+  else
+    [UInt8.ofNat (0xF0 + r / 262144), UInt8.ofNat (0x80 + r / 4096 % 64),
+     UInt8.ofNat (0x80 + r / 64 % 64), UInt8.ofNat (0x80 + r % 64)]
+
+/-- push the encoding of `r` on a reversed accumulator. -/
+@[inline] def pushRune (r : Nat) (acc : Bytes) : Bytes := (utf8Encode r).reverseAux acc
+
+/-- `unicode.IsSpace`. -/
+def isSpaceRune (r : Nat) : Bool :=
+  (0x09 ≤ r && r ≤ 0x0D) || r == 0x20 || r == 0x85 || r == 0xA0 || r == 0x1680 ||
+  (0x2000 ≤ r && r ≤ 0x200A) || r == 0x2028 || r == 0x2029 || r == 0x202F || r == 0x205F ||
+  r == 0x3000
+
+/-! ## The scanner (scanner.go) -/
+
+/-- entries of `scanner.parseState`. -/
+inductive ParseState where
+  | objKey | objVal | arrVal
+  deriving DecidableEq, Repr
+
+/-- the `step` function currently installed in the scanner. -/
+inductive ScanState where
+  | beginValueOrEmpty | beginValue | beginStringOrEmpty | beginString | endValue | endTop
+  | inString | inStringEsc | escU | escU1 | escU12 | escU123
+  | neg | num1 | num0 | dot | dot0 | exp | expSign | exp0
+  | t | tr | tru | f | fa | fal | fals | n | nu | nul
+  | error
+  deriving DecidableEq, Repr
+
+/-- scanner opcodes, in Go's numeric order (`scanContinue` … `scanError`). -/
+inductive ScanOp where
+  | cont | beginLiteral | beginObject | objectKey | objectValue | endObject
+  | beginArray | arrayValue | endArray | skipSpace | «end» | error
+  deriving DecidableEq, Repr
+
+def maxNestingDepth : Nat := 10000
+
+/-- `stack` has its top at the head; `depth = stack.length` is cached. `st = .error` iff Go's `s.err != nil`. -/
+structure Scanner where
+  st : ScanState
+  endTop : Bool
+  stack : List ParseState
+  depth : Nat
+  deriving Repr
+
+def Scanner.init : Scanner := { st := .beginValue, endTop := false, stack := [], depth := 0 }
+
+@[inline] def Scanner.fail (s : Scanner) : Scanner × ScanOp := ({ s with st := .error }, .error)
+@[inline] def Scanner.goto (s : Scanner) (st : ScanState) (op : ScanOp) : Scanner × ScanOp := ({ s with st := st }, op)
+
+/-- `pushParseState` (the step function `next` has been installed before the call). -/
+def Scanner.push (s : Scanner) (p : ParseState) (next : ScanState) (ok : ScanOp) : Scanner × ScanOp :=
+  let s' : Scanner := { s with stack := p :: s.stack, depth := s.depth + 1, st := next }
+  if s.depth + 1 ≤ maxNestingDepth then (s', ok) else s'.fail
+
+/-- `popParseState`. -/
+def Scanner.pop (s : Scanner) : Scanner :=
+  match s.stack with
+  | [] => s
+  | _ :: [] => { st := .endTop, endTop := true, stack := [], depth := 0 }
+  | _ :: rest => { s with st := .endValue, stack := rest, depth := s.depth - 1 }
+
+def stateEndTop (s : Scanner) (c : UInt8) : Scanner × ScanOp :=
+  -- a non-space byte records an error but still returns scanEnd
+  if isJsonWs c then (s, .end) else ({ s with st := .error }, .end)
+
+def stateEndValue (s : Scanner) (c : UInt8) : Scanner × ScanOp :=
+  match s.stack with
+  | [] => stateEndTop { s with st := .endTop, endTop := true } c
+  | ps :: rest =>
+    if isJsonWs c then s.goto .endValue .skipSpace
+    else match ps with
+      | .objKey =>
+        if c == 0x3A then ({ s with stack := .objVal :: rest, st := .beginValue }, .objectKey)
+        else s.fail
+      | .objVal =>
+        if c == 0x2C then ({ s with stack := .objKey :: rest, st := .beginString }, .objectValue)
+        else if c == 0x7D then (s.pop, .endObject)
+        else s.fail
+      | .arrVal =>
+        if c == 0x2C then s.goto .beginValue .arrayValue
+        else if c == 0x5D then (s.pop, .endArray)
+        else s.fail
+
+def stateBeginValue (s : Scanner) (c : UInt8) : Scanner × ScanOp :=
+  if isJsonWs c then (s, .skipSpace)
+  else if c == 0x7B then s.push .objKey .beginStringOrEmpty .beginObject
+  else if c == 0x5B then s.push .arrVal .beginValueOrEmpty .beginArray
+  else if c == 0x22 then s.goto .inString .beginLiteral
+  else if c == 0x2D then s.goto .neg .beginLiteral
+  else if c == 0x30 then s.goto .num0 .beginLiteral
+  else if c == 0x74 then s.goto .t .beginLiteral
+  else if c == 0x66 then s.goto .f .beginLiteral
+  else if c == 0x6E then s.goto .n .beginLiteral
+  else if isDigit19 c then s.goto .num1 .beginLiteral
+  else s.fail
+
+def stateBeginString (s : Scanner) (c : UInt8) : Scanner × ScanOp :=
+  if isJsonWs c then (s, .skipSpace)
+  else if c == 0x22 then s.goto .inString .beginLiteral
+  else s.fail
+
+def state0 (s : Scanner) (c : UInt8) : Scanner × ScanOp :=
+  if c == 0x2E then s.goto .dot .cont
+  else if c == 0x65 || c == 0x45 then s.goto .exp .cont
+  else stateEndValue s c
+
+def stateESign (s : Scanner) (c : UInt8) : Scanner × ScanOp :=
+  if isDigit c then s.goto .exp0 .cont else s.fail
+
+@[inline] def scanExpect (s : Scanner) (c want : UInt8) (next : ScanState) : Scanner × ScanOp :=
+  if c == want then s.goto next .cont else s.fail
+
+@[inline] def scanExpectHex (s : Scanner) (c : UInt8) (next : ScanState) : Scanner × ScanOp :=
+  if isHexDigit c then s.goto next .cont else s.fail
+
+/-- `s.step(s, c)`. -/
+def scanStep (s : Scanner) (c : UInt8) : Scanner × ScanOp :=
+  match s.st with
+  | .beginValueOrEmpty =>
+    if isJsonWs c then (s, .skipSpace)
+    else if c == 0x5D then stateEndValue s c
+    else stateBeginValue s c
+  | .beginValue => stateBeginValue s c
+  | .beginStringOrEmpty =>
+    if isJsonWs c then (s, .skipSpace)
+    else if c == 0x7D then
+      match s.stack with
+      | _ :: rest => stateEndValue { s with stack := .objVal :: rest } c
+      | [] => s.fail
+    else stateBeginString s c
+  | .beginString => stateBeginString s c
+  | .endValue => stateEndValue s c
+  | .endTop => stateEndTop s c
+  | .inString =>
+    if c == 0x22 then s.goto .endValue .cont
+    else if c == 0x5C then s.goto .inStringEsc .cont
+    else if c < 0x20 then s.fail
+    else (s, .cont)
+  | .inStringEsc =>
+    if c == 0x62 || c == 0x66 || c == 0x6E || c == 0x72 || c == 0x74 ||
+       c == 0x5C || c == 0x2F || c == 0x22 then s.goto .inString .cont
+    else if c == 0x75 then s.goto .escU .cont
+    else s.fail
+  | .escU => scanExpectHex s c .escU1
+  | .escU1 => scanExpectHex s c .escU12
+  | .escU12 => scanExpectHex s c .escU123
+  | .escU123 => scanExpectHex s c .inString
+  | .neg =>
+    if c == 0x30 then s.goto .num0 .cont
+    else if isDigit19 c then s.goto .num1 .cont
+    else s.fail
+  | .num1 => if isDigit c then (s, .cont) else state0 s c
+  | .num0 => state0 s c
+  | .dot => if isDigit c then s.goto .dot0 .cont else s.fail
+  | .dot0 =>
+    if isDigit c then (s, .cont)
+    else if c == 0x65 || c == 0x45 then s.goto .exp .cont
+    else stateEndValue s c
+  | .exp => if c == 0x2B || c == 0x2D then s.goto .expSign .cont else stateESign s c
+  | .expSign => stateESign s c
+  | .exp0 => if isDigit c then (s, .cont) else stateEndValue s c
+  | .t => scanExpect s c 0x72 .tr
+  | .tr => scanExpect s c 0x75 .tru
+  | .tru => scanExpect s c 0x65 .endValue
+  | .f => scanExpect s c 0x61 .fa
+  | .fa => scanExpect s c 0x6C .fal
+  | .fal => scanExpect s c 0x73 .fals
+  | .fals => scanExpect s c 0x65 .endValue
+  | .n => scanExpect s c 0x75 .nu
+  | .nu => scanExpect s c 0x6C .nul
+  | .nul => scanExpect s c 0x6C .endValue
+  | .error => (s, .error)
+
+/-- `s.eof() != scanError`. -/
+def Scanner.eof (s : Scanner) : Bool :=
+  if s.st == .error then false
+  else if s.endTop then true
+  else (scanStep s 0x20).1.endTop
+
+/-! ## json.Valid -/
+
+/-- `checkValid`'s loop. -/
+def validLoop (s : Scanner) : Bytes → Bool
+  | [] => s.eof
+  | c :: rest =>
+    match scanStep s c with
+    | (_, .error) => false
+    | (s', _) => validLoop s' rest
+
+/-- `json.Valid(data)`: exactly the inputs that the scanner (`checkValid`) accepts as ONE JSON value with
+    optional surrounding whitespace (space, \t, \r, \n).  Raw bytes ≥ 0x80 inside strings are accepted
+    whether or not they are well-formed UTF-8; raw bytes < 0x20 inside strings are rejected; `\'` is
+    rejected.  Opening the 10001st nested array/object is an error ("exceeded max depth"): nesting depth
+    10000 is valid, 10001 is not (depth of siblings does not add up). -/
+def valid (data : Bytes) : Bool := validLoop Scanner.init data
+
+/-! ## Compact + HTML escape (`appendCompact(dst, src, escape = true)`) -/
+
+/-- reversed `\u00XX` / `\u20XX` escape pushed on a reversed accumulator. -/
+@[inline] def pushU (h1 h2 h3 h4 : UInt8) (acc : Bytes) : Bytes :=
+  h4 :: h3 :: h2 :: h1 :: 0x75 :: 0x5C :: acc
+
+@[inline] def pushU00 (c : UInt8) (acc : Bytes) : Bytes :=
+  pushU 0x30 0x30 (hexLower (c.toNat / 16)) (hexLower (c.toNat % 16)) acc
+
+/-- `skip` = number of following bytes already covered by an emitted `\u2028`/`\u2029` escape
+    (they are still fed to the scanner, as in Go). -/
+def compactLoop (s : Scanner) (skip : Nat) (acc : Bytes) : Bytes → Option Bytes
+  | [] => if s.eof then some acc.reverse else none
+  | c :: rest =>
+    match scanStep s c with
+    | (_, .error) => none
+    | (s', op) =>
+      match skip with
+      | k + 1 => compactLoop s' k acc rest
+      | 0 =>
+        if c == 0x3C || c == 0x3E || c == 0x26 then compactLoop s' 0 (pushU00 c acc) rest
+        else
+          let ls : Bool := c == 0xE2 &&
+            (match rest with
+             | c1 :: c2 :: _ => c1 == 0x80 && (c2 &&& 0xFE) == 0xA8
+             | _ => false)
+          if ls then
+            match rest with
+            | _ :: c2 :: _ =>
+              compactLoop s' 2 (pushU 0x32 0x30 0x32 (hexLower (c2.toNat % 16)) acc) rest
+            | _ => none
+          else if op == .skipSpace || op == .end then compactLoop s' 0 acc rest
+          else compactLoop s' 0 (c :: acc) rest
+
+/-- What `json.Marshal` emits for a `json.RawMessage` / the output of a `Marshaler` with contents `data`
+    (non-nil): `json.Compact` plus HTML escaping; `none` when Go reports an error (invalid JSON). -/
+def compact (data : Bytes) : Option Bytes := compactLoop Scanner.init 0 [] data
+
+/-! ## trim -/
+
+/-- surrounding JSON whitespace removed. For valid `data` this is the exact text handed to an
+    `Unmarshaler` / stored in a `json.RawMessage`. -/
+def trim (data : Bytes) : Bytes :=
+  ((data.dropWhile isJsonWs).reverse.dropWhile isJsonWs).reverse
+
+/-! ## String literals: `unquote` -/
+
+def isSurrogate (r : Nat) : Bool := 0xD800 ≤ r && r < 0xE000
+def isHighSurrogate (r : Nat) : Bool := 0xD800 ≤ r && r < 0xDC00
+def isLowSurrogate (r : Nat) : Bool := 0xDC00 ≤ r && r < 0xE000
+
+/-- U+FFFD pushed on a reversed accumulator. -/
+@[inline] def pushFFFD (acc : Bytes) : Bytes := 0xBD :: 0xBF :: 0xEF :: acc
+
+/-- a `\uXXXX` surrogate that has been read but whose fate is not decided yet is kept in `pend`;
+    anything other than a matching low surrogate turns it into U+FFFD. -/
+@[inline] def flushPend (pend : Option Nat) (acc : Bytes) : Bytes :=
+  match pend with
+  | none => acc
+  | some _ => pushFFFD acc
+
+/-- the byte denoted by a one-letter escape accepted by the scanner (`\'` is rejected by the scanner,
+    although `unquote` itself would accept it). -/
+def simpleEscape (e : UInt8) : Option UInt8 :=
+  if e == 0x22 || e == 0x5C || e == 0x2F then some e
+  else if e == 0x62 then some 0x08
+  else if e == 0x66 then some 0x0C
+  else if e == 0x6E then some 0x0A
+  else if e == 0x72 then some 0x0D
+  else if e == 0x74 then some 0x09
+  else none
+
+/-- `\uXXXX` value `v` has just been read. -/
+@[inline] def afterU (pend : Option Nat) (v : Nat) (acc : Bytes) : Option Nat × Bytes :=
+  match pend with
+  | some hi =>
+    if isHighSurrogate hi && isLowSurrogate v then
+      (none, pushRune (0x10000 + (hi - 0xD800) * 1024 + (v - 0xDC00)) acc)
+    else
+      let acc := pushFFFD acc
+      if isSurrogate v then (some v, acc) else (none, pushRune v acc)
+  | none => if isSurrogate v then (some v, acc) else (none, pushRune v acc)
+
+/-- body of a string literal after the opening quote. `k` = continuation bytes of a well-formed
+    multi-byte rune still to be copied. -/
+def decodeLoop (k : Nat) (pend : Option Nat) (acc : Bytes) : Bytes → Option Bytes
+  | [] => none
+  | c :: rest =>
+    match k with
+    | k + 1 => decodeLoop k none (c :: acc) rest
+    | 0 =>
+      if c == 0x22 then
+        if rest.isEmpty then some (flushPend pend acc).reverse else none
+      else if c == 0x5C then
+        match rest with
+        | [] => none
+        | e :: rest1 =>
+          if e == 0x75 then
+            match rest1 with
+            | h1 :: h2 :: h3 :: h4 :: rest2 =>
+              if isHexDigit h1 && isHexDigit h2 && isHexDigit h3 && isHexDigit h4 then
+                let v := ((hexDigitVal h1 * 16 + hexDigitVal h2) * 16 + hexDigitVal h3) * 16 + hexDigitVal h4
+                match afterU pend v acc with
+                | (pend', acc') => decodeLoop 0 pend' acc' rest2
+              else none
+            | _ => none
+          else
+            match simpleEscape e with
+            | some x => decodeLoop 0 none (x :: flushPend pend acc) rest1
+            | none => none
+      else if c < 0x20 then none
+      else if c < 0x80 then decodeLoop 0 none (c :: flushPend pend acc) rest
+      else
+        let acc := flushPend pend acc
+        match decodeRune (c :: rest) with
+        | (_, n) =>
+          if n ≤ 1 then decodeLoop 0 none (pushFFFD acc) rest
+          else decodeLoop (n - 1) none (c :: acc) rest
+
+/-- The Go string obtained by unmarshalling the JSON string literal `raw` (quotes included, no
+    surrounding whitespace) into a `string`; `none` if `raw` is not a string literal accepted by the scanner.
+    `\uXXXX`: a high surrogate immediately followed by a `\uXXXX` low surrogate gives one rune ≥ U+10000;
+    any other surrogate escape gives U+FFFD and the following escape is then processed on its own.
+    Raw bytes: well-formed UTF-8 is copied, every other byte ≥ 0x80 becomes U+FFFD (EF BF BD) — this
+    includes each byte of CESU-style surrogates (ED A0..BF xx) and of overlong forms. -/
+def decodeString (raw : Bytes) : Option Bytes :=
+  match raw with
+  | c :: rest => if c == 0x22 then decodeLoop 0 none [] rest else none
+  | [] => none
+
+/-! ## `appendString(dst, s, escapeHTML = true)` -/
+
+def encodeLoop (k : Nat) (acc : Bytes) : Bytes → Bytes
+  | [] => acc
+  | c :: rest =>
+    match k with
+    | k + 1 => encodeLoop k (c :: acc) rest
+    | 0 =>
+      if c < 0x80 then
+        if c == 0x22 || c == 0x5C then encodeLoop 0 (c :: 0x5C :: acc) rest
+        else if c == 0x08 then encodeLoop 0 (0x62 :: 0x5C :: acc) rest
+        else if c == 0x0C then encodeLoop 0 (0x66 :: 0x5C :: acc) rest
+        else if c == 0x0A then encodeLoop 0 (0x6E :: 0x5C :: acc) rest
+        else if c == 0x0D then encodeLoop 0 (0x72 :: 0x5C :: acc) rest
+        else if c == 0x09 then encodeLoop 0 (0x74 :: 0x5C :: acc) rest
+        else if c < 0x20 || c == 0x3C || c == 0x3E || c == 0x26 then encodeLoop 0 (pushU00 c acc) rest
+        else encodeLoop 0 (c :: acc) rest
+      else
+        match decodeRune (c :: rest) with
+        | (r, n) =>
+          if n ≤ 1 then encodeLoop 0 (pushU 0x66 0x66 0x66 0x64 acc) rest
+          else if r == 0x2028 || r == 0x2029 then
+            match rest with
+            | _ :: _ :: rest2 => encodeLoop 0 (pushU 0x32 0x30 0x32 (hexLower (r % 16)) acc) rest2
+            | _ => acc
+          else encodeLoop (n - 1) (c :: acc) rest
+
+/-- `json.Marshal(s)` for a Go string `s` (default HTML-safe escaping): `\"` `\\` `\b` `\f` `\n` `\r` `\t`
+    (the short forms `\b`/`\f` exist since Go 1.22), other bytes < 0x20 and `<` `>` `&` as `\u00xx` (lower-case
+    hex), U+2028/U+2029 as `\u2028`/`\u2029`, every byte that is not part of a well-formed UTF-8 sequence as
+    `\ufffd`; everything else verbatim (including 0x7F, `/` and `'`). -/
+def encodeString (s : Bytes) : Bytes := (0x22 :: encodeLoop 0 [0x22] s).reverse
+
+/-! ## One-level view -/
+
+/-- One-level view of a JSON value.  Children are kept as their exact raw text (no surrounding
+    whitespace); object members are in input order with duplicates kept and keys decoded. -/
 inductive Top where
   | null
   | bool (v : Bool)
@@ -12,14 +470,247 @@ inductive Top where
   | str (decoded : Bytes)
   | arr (elems : List Bytes)
   | obj (members : List (Bytes × Bytes))
+  deriving DecidableEq, Repr
 
-def parse1 (_data : Bytes) : Option Top := none
-def decodeString (_raw : Bytes) : Option Bytes := none
-def encodeString (s : Bytes) : Bytes := [34] ++ s ++ [34]
-def anyDecodable (_numOk : Bytes → Bool) (_raw : Bytes) : Bool := true
-def foldEq (key name : Bytes) : Bool := key == name
-def stripSpaces (s : Bytes) : Bytes := s.filter (· != 32)
-def trimSpace (s : Bytes) : Bytes := s
-def compact (data : Bytes) : Option Bytes := some data
+@[inline] def finishItems (cur : Bytes) (done : List Bytes) : List Bytes :=
+  if cur.isEmpty && done.isEmpty then [] else (cur.reverse :: done).reverse
 
-end GoLucene.Json
+/-- Splits the body of a VALID array/object text (everything after the opening bracket, no trailing
+    whitespace) at the `,` and `:` of nesting depth 0, dropping depth-0 whitespace.
+    `none` if the closing bracket is missing or is not the last byte. -/
+def splitLoop (inStr esc : Bool) (depth : Nat) (cur : Bytes) (done : List Bytes) :
+    Bytes → Option (List Bytes)
+  | [] => none
+  | c :: rest =>
+    if inStr then
+      if esc then splitLoop true false depth (c :: cur) done rest
+      else if c == 0x5C then splitLoop true true depth (c :: cur) done rest
+      else if c == 0x22 then splitLoop false false depth (c :: cur) done rest
+      else splitLoop true false depth (c :: cur) done rest
+    else if c == 0x22 then splitLoop true false depth (c :: cur) done rest
+    else if c == 0x5B || c == 0x7B then splitLoop false false (depth + 1) (c :: cur) done rest
+    else if c == 0x5D || c == 0x7D then
+      match depth with
+      | 0 => if rest.isEmpty then some (finishItems cur done) else none
+      | d + 1 => splitLoop false false d (c :: cur) done rest
+    else
+      match depth with
+      | 0 =>
+        if c == 0x2C || c == 0x3A then splitLoop false false 0 [] (cur.reverse :: done) rest
+        else if isJsonWs c then splitLoop false false 0 cur done rest
+        else splitLoop false false 0 (c :: cur) done rest
+      | _ => splitLoop false false depth (c :: cur) done rest
+
+/-- `[k₁, v₁, k₂, v₂, …]` ↦ `[(decode k₁, v₁), …]`. -/
+def pairUp (acc : List (Bytes × Bytes)) : List Bytes → Option (List (Bytes × Bytes))
+  | [] => some acc.reverse
+  | [_] => none
+  | k :: v :: rest =>
+    match decodeString k with
+    | some dk => pairUp ((dk, v) :: acc) rest
+    | none => none
+
+/-- One-level view of a valid JSON document; `none` iff `valid data = false`. -/
+def parse1 (data : Bytes) : Option Top :=
+  if !valid data then none
+  else
+    let t := trim data
+    match t with
+    | [] => none
+    | c :: rest =>
+      if c == 0x22 then (decodeString t).map Top.str
+      else if c == 0x5B then (splitLoop false false 0 [] [] rest).map Top.arr
+      else if c == 0x7B then ((splitLoop false false 0 [] [] rest).bind (pairUp [])).map Top.obj
+      else if c == 0x74 then some (.bool true)
+      else if c == 0x66 then some (.bool false)
+      else if c == 0x6E then some .null
+      else some (.num t)
+
+/-! ## Unmarshal into `any` -/
+
+@[inline] def isNumChar (c : UInt8) : Bool :=
+  isDigit c || c == 0x2D || c == 0x2B || c == 0x2E || c == 0x65 || c == 0x45
+
+/-- every number token (outside strings) of a valid document satisfies `numOk`. -/
+def numsLoop (numOk : Bytes → Bool) (inStr esc : Bool) (cur : Option Bytes) : Bytes → Bool
+  | [] =>
+    match cur with
+    | some n => numOk n.reverse
+    | none => true
+  | c :: rest =>
+    if inStr then
+      if esc then numsLoop numOk true false none rest
+      else if c == 0x5C then numsLoop numOk true true none rest
+      else if c == 0x22 then numsLoop numOk false false none rest
+      else numsLoop numOk true false none rest
+    else
+      match cur with
+      | some n =>
+        if isNumChar c then numsLoop numOk false false (some (c :: n)) rest
+        else if numOk n.reverse then numsLoop numOk (c == 0x22) false none rest
+        else false
+      | none =>
+        if c == 0x22 then numsLoop numOk true false none rest
+        else if c == 0x2D || isDigit c then numsLoop numOk false false (some [c]) rest
+        else numsLoop numOk false false none rest
+
+/-- `json.Unmarshal(raw, &x) == nil` for `var x any`: the document is valid and no number in it
+    makes `strconv.ParseFloat(·, 64)` fail (`numOk`). -/
+def anyDecodable (numOk : Bytes → Bool) (raw : Bytes) : Bool :=
+  valid raw && numsLoop numOk false false none raw
+
+/-! ## Reference `numOk`: does `strconv.ParseFloat(raw, 64)` succeed on a JSON number literal -/
+
+def decDigitsVal (acc : Nat) : Bytes → Nat
+  | [] => acc
+  | c :: rest => decDigitsVal (acc * 10 + (c.toNat - 0x30)) rest
+
+/-- Go accumulates the decimal exponent as `if e < 10000 { e = e*10 + digit }`. -/
+def expVal (acc : Nat) : Bytes → Nat
+  | [] => acc
+  | c :: rest => expVal (if acc < 10000 then acc * 10 + (c.toNat - 0x30) else acc) rest
+
+/-- 2^1024 − 2^970: the smallest real number that rounds (to nearest even) to +Inf. -/
+def float64OverflowThreshold : Nat := 2 ^ 1024 - 2 ^ 970
+
+/-- For `raw` matching the JSON number grammar: `true` iff `strconv.ParseFloat(raw, 64)` returns a nil
+    error.  The only possible error is `ErrRange` on overflow (underflow to 0 is not an error), and it can
+    only be produced by strconv's slow path (`decimal.set` + `floatBits`): the fast paths never return ±Inf.
+    So the error is raised iff the slow path's reading of the literal rounds to ±Inf, i.e. is
+    ≥ 2^1024 − 2^970.  That reading is the mathematical value of the literal EXCEPT for two quirks that
+    are reproduced here:
+    * the exponent is accumulated with `if e < 10000 { e = e*10 + d }` (`expVal`), so exponents of 6 or
+      more digits are truncated to their first 5 digits;
+    * only the first 800 significant digits are stored and the decimal point is taken from the number of
+      STORED digits, so an integer part with more than 800 significant digits is scaled down by
+      10^(excess).  -/
+def numOkRef (raw : Bytes) : Bool :=
+  let s := match raw with
+    | c :: rest => if c == 0x2D then rest else raw
+    | [] => raw
+  let intDigits := s.takeWhile isDigit
+  let s := s.dropWhile isDigit
+  let (fracDigits, s) : Bytes × Bytes :=
+    match s with
+    | c :: rest => if c == 0x2E then (rest.takeWhile isDigit, rest.dropWhile isDigit) else ([], s)
+    | [] => ([], s)
+  let (expNeg, expDigits) : Bool × Bytes :=
+    match s with
+    | c :: rest =>
+      if c == 0x65 || c == 0x45 then
+        match rest with
+        | sg :: rest' =>
+          if sg == 0x2D then (true, rest'.takeWhile isDigit)
+          else if sg == 0x2B then (false, rest'.takeWhile isDigit)
+          else (false, rest.takeWhile isDigit)
+        | [] => (false, [])
+      else (false, [])
+    | [] => (false, [])
+  let intSig := intDigits.dropWhile (· == 0x30)
+  let sigAll := (intDigits ++ fracDigits).dropWhile (· == 0x30)
+  if sigAll.isEmpty then true
+  else
+    -- leading zeros of the fraction when the integer part is zero
+    let fracZeros : Nat := if intSig.isEmpty then (fracDigits.takeWhile (· == 0x30)).length else 0
+    let e : Int := expVal 0 expDigits
+    -- decimal.dp : value = 0.d₁d₂… × 10^dp
+    let dp : Int := (min intSig.length 800 : Nat) - (fracZeros : Int) + (if expNeg then -e else e)
+    let sig := sigAll.take 800
+    let d : Int := sig.length
+    -- 10^(dp-1) ≤ value < 10^dp, threshold ≈ 1.797…e308
+    if dp ≤ 308 then true
+    else if dp ≥ 310 then false
+    else
+      let m := decDigitsVal 0 sig
+      let e10 := dp - d
+      if e10 ≥ 0 then m * 10 ^ e10.toNat < float64OverflowThreshold
+      else m < float64OverflowThreshold * 10 ^ (-e10).toNat
+
+/-! ## Key folding -/
+
+/-- ASCII upper-casing plus the two non-ASCII runes whose simple-fold orbit contains an ASCII letter:
+    U+017F (ſ, C5 BF) ↦ `S` and U+212A (K, E2 84 AA) ↦ `K`; every other byte is kept. -/
+def foldLoop (skip : Nat) (acc : Bytes) : Bytes → Bytes
+  | [] => acc.reverse
+  | c :: rest =>
+    match skip with
+    | k + 1 => foldLoop k acc rest
+    | 0 =>
+      if 0x61 ≤ c && c ≤ 0x7A then foldLoop 0 ((c - 0x20) :: acc) rest
+      else if c == 0xC5 && (match rest with | c1 :: _ => c1 == 0xBF | [] => false) then
+        foldLoop 1 (0x53 :: acc) rest
+      else if c == 0xE2 && (match rest with | c1 :: c2 :: _ => c1 == 0x84 && c2 == 0xAA | _ => false) then
+        foldLoop 2 (0x4B :: acc) rest
+      else foldLoop 0 (c :: acc) rest
+
+/-- Does the (decoded) object key `key` select the struct field whose JSON name is the ASCII string
+    `name`?  Go: exact match, else `foldName(key) == foldName(name)`, which is `strings.EqualFold`.
+    Exact for ASCII `name`; for non-ASCII `name` only the foldings listed at `foldLoop` are applied. -/
+def foldEq (key name : Bytes) : Bool := foldLoop 0 [] key == foldLoop 0 [] name
+
+/-! ## strings.Fields / bytes.TrimSpace -/
+
+/-- `k` following bytes belong to the rune just classified: they are kept (`keep`) or dropped. -/
+def stripLoop (k : Nat) (keep : Bool) (acc : Bytes) : Bytes → Bytes
+  | [] => acc.reverse
+  | c :: rest =>
+    match k with
+    | k + 1 => stripLoop k keep (if keep then c :: acc else acc) rest
+    | 0 =>
+      match decodeRune (c :: rest) with
+      | (r, n) =>
+        if isSpaceRune r then stripLoop (n - 1) false acc rest
+        else stripLoop (n - 1) true (c :: acc) rest
+
+/-- `strings.Join(strings.Fields(s), "")`. -/
+def stripSpaces (s : Bytes) : Bytes := stripLoop 0 true [] s
+
+/-- `bytes.TrimLeftFunc(s, unicode.IsSpace)`. -/
+def trimLeftLoop (k : Nat) : Bytes → Bytes
+  | [] => []
+  | c :: rest =>
+    match k with
+    | k + 1 => trimLeftLoop k rest
+    | 0 =>
+      match decodeRune (c :: rest) with
+      | (r, n) => if isSpaceRune r then trimLeftLoop (n - 1) rest else c :: rest
+
+/-- `utf8.DecodeLastRune` on the REVERSED byte list: `(rune, size)`; `(0xFFFD, 1)` unless the last
+    `size` bytes are a well-formed encoding. -/
+def decodeLastRune (rev : Bytes) : Nat × Nat :=
+  match rev with
+  | [] => (runeError, 0)
+  | c :: _ =>
+    if c < 0x80 then (c.toNat, 1)
+    else
+      let attempt (n : Nat) : Option (Nat × Nat) :=
+        let seq := (rev.take n).reverse
+        if seq.length == n then
+          match decodeRune seq with
+          | (r, m) => if m == n then some (r, n) else none
+        else none
+      match attempt 2 with
+      | some x => x
+      | none =>
+        match attempt 3 with
+        | some x => x
+        | none =>
+          match attempt 4 with
+          | some x => x
+          | none => (runeError, 1)
+
+/-- `bytes.TrimRightFunc(·, unicode.IsSpace)` on the reversed list. -/
+def trimRightLoop (k : Nat) : Bytes → Bytes
+  | [] => []
+  | c :: rest =>
+    match k with
+    | k + 1 => trimRightLoop k rest
+    | 0 =>
+      match decodeLastRune (c :: rest) with
+      | (r, n) => if isSpaceRune r then trimRightLoop (n - 1) rest else c :: rest
+
+/-- `bytes.TrimSpace(s)`. -/
+def trimSpace (s : Bytes) : Bytes := (trimRightLoop 0 (trimLeftLoop 0 s).reverse).reverse
+
+end Json
+end GoLucene
